@@ -47,6 +47,19 @@ def install(ex):
         c = args[0]
         if ex.assume_mode == 'ignore':
             return None
+        # operand bundles: "align"(ptr, alignment [, offset]) -- what __builtin_assume_aligned tells the optimiser
+        for tag, bargs in (ins.x or ()):
+            if tag == 'align':
+                fr = st.frames[-1]
+                vals = [ex.val(st, fr, t_, v_) for t_, v_ in bargs]
+                ptr, al = vals[0], vals[1]
+                off = vals[2] if len(vals) > 2 else 0
+                if isinstance(ptr, Term) or isinstance(al, Term) or isinstance(off, Term):
+                    raise X.ExecError('symbolic alignment assumption')
+                if al and (ptr - off) % al != 0:
+                    raise X.PathError('assume-violated', 'the optimiser is told that address %#x is %d-byte aligned, which is false: misaligned vector access (%s)' % (ptr, al, st.frames[-1].fn.name[:80]))
+            elif tag not in ('nonnull', 'dereferenceable', 'noundef', 'ignore'):
+                raise X.ExecError('unsupported operand bundle %r on llvm.assume' % tag)
         if c is X.UNDEF:
             raise X.PathError('ub', 'llvm.assume on uninitialised value')
         if isinstance(c, Term):
